@@ -11,6 +11,7 @@ require (
 	github.com/prometheus/client_model v0.6.1
 	gopkg.in/yaml.v3 v3.0.1
 	k8s.io/apimachinery v0.30.11
+	k8s.io/client-go v0.30.11
 	pgregory.net/rapid v1.3.0
 )
 
@@ -95,7 +96,6 @@ require (
 	k8s.io/api v0.30.11 // indirect
 	k8s.io/apiextensions-apiserver v0.30.11 // indirect
 	k8s.io/cli-runtime v0.30.11 // indirect
-	k8s.io/client-go v0.30.11 // indirect
 	k8s.io/klog/v2 v2.130.1 // indirect
 	k8s.io/kube-openapi v0.0.0-20240228011516-70dd3763d340 // indirect
 	k8s.io/utils v0.0.0-20240711033017-18e509b52bc8 // indirect
